@@ -65,10 +65,10 @@ XVar(t) == QMk(A2(t), NMulSmall(t.W, t.n - 1))
 XSkewSign(t) == A3(t).s
 XSkew2(t) == LET a2 == A2(t) IN
              QMk(ZMulInt(ZSq(A3(t)), t.n * (t.n - 1)),
-                 NMulSmall(NMul(NMul(a2.m, a2.m), a2.m), (t.n - 2) * (t.n - 2)))
+                 NMul(NMul(NMul(a2.m, a2.m), a2.m), NFromInt((t.n - 2) * (t.n - 2))))
 XKurt(t) == LET a2s == ZSq(A2(t)) IN
             QMk(ZMulInt(ZAdd(ZMulInt(ZSub(A4(t), ZMulInt(a2s, 3)), t.n + 1), ZMulInt(a2s, 6)), t.n - 1),
-                NMulSmall(a2s.m, (t.n - 2) * (t.n - 3)))
+                NMul(a2s.m, NFromInt((t.n - 2) * (t.n - 3))))
 (* the weighted mean of any tuple with W > 0 is XMean *)
 
 (* ---- definitional statistics of the data themselves ------------------------------- *)
@@ -90,9 +90,9 @@ DefMean(c) == QMk(c.S1, c.W)
 DefVar(c, n) == QMk(c.C2, NMulSmall(NMul(c.W, c.W), n - 1))
 DefSkewSign(c) == c.C3.s
 DefSkew2(c, n) == QMk(ZMulInt(ZMulInt(ZSq(c.C3), n), n * (n - 1)),
-                      NMulSmall(NMul(NMul(c.C2.m, c.C2.m), c.C2.m), (n - 2) * (n - 2)))
+                      NMul(NMul(NMul(c.C2.m, c.C2.m), c.C2.m), NFromInt((n - 2) * (n - 2))))
 DefKurt(c, n) == LET c2s == ZSq(c.C2) IN
                  QMk(ZMulInt(ZAdd(ZMulInt(ZSub(ZMulInt(c.C4, n), ZMulInt(c2s, 3)), n + 1), ZMulInt(c2s, 6)), n - 1),
-                     NMulSmall(c2s.m, (n - 2) * (n - 3)))
+                     NMul(c2s.m, NFromInt((n - 2) * (n - 3))))
 
 =============================================================================
